@@ -289,6 +289,61 @@ inline void Ctx::fail(const KV &kv, const std::string &msg) {
     fprintf(stderr, "VH-FAIL sub=%s msg=%s file=%s\n", cur_sub.c_str(), msg.c_str(), name);
 }
 
+// ---------------------------------------------------------------- exact-size buffers
+// A buffer of exactly n bytes at a chosen misalignment whose surroundings are ASan-poisoned, so a one-byte
+// over-read/over-write (any alignment) or under-run (down to 8-byte granularity) is reported.
+struct XBuf {
+    uint8_t *base, *p; size_t n, total; bool pooled;
+    enum { SLOT = 8192, NSLOT = 24, PAD = 64 };
+    XBuf(size_t n_, size_t align = 0, int fill = 0xa5) : n(n_) {
+        static uint8_t *pool = nullptr; static unsigned slot = 0;
+        if (!pool) { pool = (uint8_t *) aligned_alloc(64, (size_t) SLOT * NSLOT); memset(pool, 0, (size_t) SLOT * NSLOT); }
+        total = n + 2 * PAD + 64;
+        pooled = total <= SLOT;
+        base = pooled ? pool + (size_t) SLOT * (slot++ % NSLOT) : (uint8_t *) aligned_alloc(64, (total + 63) / 64 * 64);
+        p = base + PAD + (align % 64);
+        if (fill >= 0) memset(p, fill, n);
+#ifdef VH_ASAN
+        __asan_poison_memory_region(base, (size_t)(p - base));
+        __asan_poison_memory_region(p + n, (size_t)(base + total - (p + n)));
+#endif
+    }
+    XBuf(const Bytes &v, size_t align = 0) : XBuf(v.size(), align, -1) { if (n) memcpy(p, v.data(), n); }
+    XBuf(const XBuf &) = delete;
+    XBuf &operator=(const XBuf &) = delete;
+    Bytes get() const { return Bytes(p, p + n); }
+    uint8_t *ptr_or_null() const { return n ? p : nullptr; }
+    ~XBuf() {
+#ifdef VH_ASAN
+        __asan_unpoison_memory_region(base, total);
+#endif
+        if (!pooled) free(base);
+    }
+};
+
+// run one typed case: journals it for crash replay, counts it, samples it, records the first failure
+template <class C>
+inline bool exec_case(Ctx &ctx, const C &c, bool (*run)(const C &, std::string &), uint64_t key, bool nontrivial) {
+    if (ctx.failed()) return false;
+    std::string msg;
+    bool ok;
+    { Guard g(ctx.cur_sub, c); ok = run(c, msg); }
+    ctx.count(key, nontrivial);
+    if (ctx.want_sample()) ctx.sample(c.kv());
+    if (!ok) ctx.fail(c.kv(), msg);
+    return ok;
+}
+
+// length mixture used by sampled (non-enumerated) generators
+inline size_t pick_len(Rng &r, size_t maxlen) {
+    static const size_t edges[] = { 0, 1, 15, 16, 17, 31, 32, 33, 63, 64, 65, 111, 112, 113, 127, 128, 129, 223, 224, 225, 255, 256, 257, 511, 512, 513, 1023, 1024, 1025 };
+    switch (r.below(4)) {
+    case 0: { size_t e = edges[r.below(sizeof edges / sizeof edges[0])]; return e <= maxlen ? e : maxlen; }
+    case 1: return r.below(std::min<size_t>(maxlen, 80) + 1);
+    default: return r.below(maxlen + 1);
+    }
+}
+
 // ---------------------------------------------------------------- CPU masks
 enum { F_SSE2 = 1, F_SSE3 = 2, F_SSSE3 = 4, F_SSE41 = 8, F_AVX = 16, F_AVX2 = 32, F_AVX512F = 64,
        F_PCLMUL = 128, F_AESNI = 256, F_RDRAND = 512, F_ALL = 1023 };
